@@ -260,6 +260,32 @@ func cmdCheck(args []string) int {
 	if len(samples) == 0 {
 		cov["samples"] = []any{"(no sample collected)"}
 	}
+	if prop == "C18" {
+		// per map-range site: how often some unit drove it with two or more keys (only then is there an
+		// alternative order to try). A site listed under never_with_two_keys is not judged dynamically.
+		per := map[string]int64{}
+		for _, u := range units {
+			for k, n := range u.Outcomes {
+				if id, ok := strings.CutPrefix(k, "map-range-site-id:"); ok {
+					if _, seen := per[id]; !seen {
+						per[id] = 0
+					}
+				}
+				if id, ok := strings.CutPrefix(k, "map-range-occurrence:"); ok {
+					per[id] += n
+				}
+			}
+		}
+		var never []string
+		for id, n := range per {
+			if n == 0 {
+				never = append(never, id)
+			}
+		}
+		sort.Strings(never)
+		cov["map_range_site_occurrences_with_two_or_more_keys"] = per
+		cov["map_range_sites_never_with_two_keys"] = never
+	}
 	ev := map[string]any{
 		"property_id": prop,
 		"tier":        *tier,
